@@ -6,6 +6,7 @@ import (
 	"go/token"
 	"go/types"
 	"sort"
+	"strings"
 
 	"golang.org/x/tools/go/ssa"
 )
@@ -32,10 +33,18 @@ type stEval struct {
 }
 
 func (e *stEval) call(fn *ssa.Function, args []stVal) []stVal {
+	return e.callWith(fn, args, nil)
+}
+
+// callWith evaluates fn; fenv maps parameters of fn that hold a method value of the status holder (a bound method
+// handed to a helper such as swapIfIs(mu, e.IsWithoutLock, e.SwapWithoutLock, …)) to that method: a call of such a
+// parameter is evaluated as a call of the method on the holder.
+func (e *stEval) callWith(fn *ssa.Function, args []stVal, fenv map[ssa.Value]*ssa.Function) []stVal {
 	if fn == nil || fn.Blocks == nil || e.fail != "" {
 		e.fail = "no body"
 		return nil
 	}
+	holderRecv := fenv == nil // in a helper frame Params[0] is not the holder
 	env := map[ssa.Value]stVal{}
 	local := map[ssa.Value]stVal{} // Alloc -> stored value
 	for i, p := range fn.Params {
@@ -49,7 +58,7 @@ func (e *stEval) call(fn *ssa.Function, args []stVal) []stVal {
 			return false
 		}
 		st, ok := deref(fa.X.Type()).Underlying().(*types.Struct)
-		return ok && st.Field(fa.Field) == e.field && fa.X == ssa.Value(fn.Params[0])
+		return ok && holderRecv && st.Field(fa.Field) == e.field && fa.X == ssa.Value(fn.Params[0])
 	}
 	val := func(v ssa.Value) stVal {
 		if k, ok := v.(*ssa.Const); ok {
@@ -126,8 +135,54 @@ func (e *stEval) call(fn *ssa.Function, args []stVal) []stVal {
 			case *ssa.Convert:
 				env[x] = val(x.X)
 			case *ssa.Call:
+				// a call of a parameter that holds a method value of the holder
+				if m, isBound := fenv[x.Call.Value]; isBound && m != nil {
+					as := []stVal{{}}
+					for _, a := range x.Call.Args {
+						as = append(as, val(a))
+					}
+					rs := e.call(m, as)
+					if e.fail != "" {
+						return nil
+					}
+					if len(rs) == 1 {
+						env[x] = rs[0]
+					}
+					continue
+				}
+				// a helper that is handed method values of the holder (and possibly its lock): evaluated with them bound
+				if cal0 := x.Call.StaticCallee(); cal0 != nil && cal0.Blocks != nil && holderRecv && len(fn.Params) > 0 && theProg != nil {
+					sub := map[ssa.Value]*ssa.Function{}
+					for i, a := range x.Call.Args {
+						mc, isMC := a.(*ssa.MakeClosure)
+						if !isMC || len(mc.Bindings) != 1 || mc.Bindings[0] != ssa.Value(fn.Params[0]) || i >= len(cal0.Params) {
+							continue
+						}
+						if bf, isF := mc.Fn.(*ssa.Function); isF && strings.HasSuffix(bf.Name(), "$bound") {
+							if mo, isFn := bf.Object().(*types.Func); isFn {
+								if m := theProg.SSA.FuncValue(mo); m != nil && m.Blocks != nil {
+									sub[cal0.Params[i]] = m
+								}
+							}
+						}
+					}
+					if len(sub) > 0 {
+						var as []stVal
+						for _, a := range x.Call.Args {
+							as = append(as, val(a))
+						}
+						rs := e.callWith(cal0, as, sub)
+						if e.fail != "" {
+							return nil
+						}
+						if len(rs) == 1 {
+							env[x] = rs[0]
+						}
+						continue
+					}
+				}
 				cal := x.Call.StaticCallee()
-				if cal != nil && cal.Signature.Recv() != nil && len(x.Call.Args) > 0 && x.Call.Args[0] == ssa.Value(fn.Params[0]) && cal.Blocks != nil &&
+				if cal != nil && holderRecv && cal.Signature.Recv() != nil && len(x.Call.Args) > 0 && x.Call.Args[0] == ssa.Value(fn.Params[0]) && cal.Blocks != nil &&
 					types.Identical(cal.Signature.Recv().Type(), fn.Signature.Recv().Type()) {
 					var as []stVal
 					for _, a := range x.Call.Args {
